@@ -388,13 +388,24 @@ Proof. vm_compute. repeat split; reflexivity. Qed.
 Open Scope float_scope.
 Example C16_ex_check_case :
   check_case (SB false 2 [[0; 0x1p-1; 1]; [0; 1; 2; 3]] [[1; 3]; [0x1.4p-1; 2]; [0; 0]; [0x1p-1; 1]; [1; 0]]
-                [5; 1; 7; 1; 5] [3; 1; 0; 4; 2]%nat [[0x1p-1; 1]; [0x1.4p-1; 2]] [[0x1p-1; 1]; [0x1p-1; 2]]) = true
+                [5; 1; 7; 1; 5] [3; 1; 0; 4; 2]%nat [[0x1p-1; 1]; [0x1.4p-1; 2]] [[0x1p-1; 1]; [0x1p-1; 2]]
+                [[0; 0]; [1; 1]] [3; infinity] [[0; 0]; [1; 1]] [3; infinity] [[0; 0]; [1; 1]] [3; infinity]) = true
+  /\ (* fit handed the history without its last row *)
+  check_case (SB false 2 [[0; 0x1p-1; 1]; [0; 1; 2; 3]] [[1; 3]; [0x1.4p-1; 2]; [0; 0]; [0x1p-1; 1]; [1; 0]]
+                [5; 1; 7; 1; 5] [3; 1; 0; 4; 2]%nat [[0x1p-1; 1]; [0x1.4p-1; 2]] [[0x1p-1; 1]; [0x1p-1; 2]]
+                [[0; 0]; [1; 1]] [3; infinity] [[0; 0]] [3] [[0; 0]; [1; 1]] [3; infinity]) = false
+  /\ (* a loss of the caller's array overwritten *)
+  check_case (SB false 2 [[0; 0x1p-1; 1]; [0; 1; 2; 3]] [[1; 3]; [0x1.4p-1; 2]; [0; 0]; [0x1p-1; 1]; [1; 0]]
+                [5; 1; 7; 1; 5] [3; 1; 0; 4; 2]%nat [[0x1p-1; 1]; [0x1.4p-1; 2]] [[0x1p-1; 1]; [0x1p-1; 2]]
+                [[0; 0]; [1; 1]] [3; infinity] [[0; 0]; [1; 1]] [3; infinity] [[0; 0]; [1; 1]] [3; 0x1.fffffep+127]) = false
   /\ (* the two LARGEST predictions *)
   check_case (SB false 2 [[0; 0x1p-1; 1]; [0; 1; 2; 3]] [[1; 3]; [0x1.4p-1; 2]; [0; 0]; [0x1p-1; 1]; [1; 0]]
-                [5; 1; 7; 1; 5] [2; 4; 0; 3; 1]%nat [[0; 0]; [1; 0]] [[0; 0]; [1; 0]]) = false
+                [5; 1; 7; 1; 5] [2; 4; 0; 3; 1]%nat [[0; 0]; [1; 0]] [[0; 0]; [1; 0]]
+                [[0; 0]; [1; 1]] [3; infinity] [[0; 0]; [1; 1]] [3; infinity] [[0; 0]; [1; 1]] [3; infinity]) = false
   /\ (* the right rows, not snapped *)
   check_case (SB false 2 [[0; 0x1p-1; 1]; [0; 1; 2; 3]] [[1; 3]; [0x1.4p-1; 2]; [0; 0]; [0x1p-1; 1]; [1; 0]]
-                [5; 1; 7; 1; 5] [3; 1; 0; 4; 2]%nat [[0x1p-1; 1]; [0x1.4p-1; 2]] [[0x1p-1; 1]; [0x1.4p-1; 2]]) = false
+                [5; 1; 7; 1; 5] [3; 1; 0; 4; 2]%nat [[0x1p-1; 1]; [0x1.4p-1; 2]] [[0x1p-1; 1]; [0x1.4p-1; 2]]
+                [[0; 0]; [1; 1]] [3; infinity] [[0; 0]; [1; 1]] [3; infinity] [[0; 0]; [1; 1]] [3; infinity]) = false
   /\ check_case (CLIP [1; infinity; 0x1p+130; neg_infinity] 0x1.fffffep+127 (-0x1.fffffep+127)
                       [1; 0x1.fffffep+127; 0x1.fffffep+127; -0x1.fffffep+127] [1; infinity; 0x1p+130; neg_infinity]) = true
   /\ (* the in-place behaviour *)
@@ -404,18 +415,24 @@ Example C16_ex_check_bcase :
   check_bcase (BB true 2 6 [0; 0] [1; 3] [0x1p-2; 0x1p-1] [[0; 0x1p-2; 0x1p-1; 0x1.8p-1; 1]; [0; 0x1p-1; 1; 0x1.8p+0; 2; 0x1.4p+1; 3]]
                  [[0x1p-1; 1]; [1; 3]; [0; 0]; [0x1p-2; 2]] [7; 2; infinity; 1] [3; 1; 0; 2]%nat
                  [(1%nat, [(0%nat, 2%nat, true); (1%nat, 1%nat, false)]); (0%nat, [(1%nat, 5%nat, false)])]
-                 false [[1; 0x1.4p+1]; [0x1p-2; 0]] [[1; 0x1.4p+1]; [0x1p-2; 0]]) = true
+                 false [[1; 0x1.4p+1]; [0x1p-2; 0]] [[1; 0x1.4p+1]; [0x1p-2; 0]] [[0x1p-1; 1]; [1; 3]; [0; 0]; [0x1p-2; 2]] [7; 2; infinity; 1]) = true
+  /\ (* the history sorted in place *)
+  check_bcase (BB true 2 6 [0; 0] [1; 3] [0x1p-2; 0x1p-1] [[0; 0x1p-2; 0x1p-1; 0x1.8p-1; 1]; [0; 0x1p-1; 1; 0x1.8p+0; 2; 0x1.4p+1; 3]]
+                 [[0x1p-1; 1]; [1; 3]; [0; 0]; [0x1p-2; 2]] [7; 2; infinity; 1] [3; 1; 0; 2]%nat
+                 [(1%nat, [(0%nat, 2%nat, true); (1%nat, 1%nat, false)]); (0%nat, [(1%nat, 5%nat, false)])]
+                 false [[1; 0x1.4p+1]; [0x1p-2; 0]] [[1; 0x1.4p+1]; [0x1p-2; 0]]
+                 [[0x1p-2; 2]; [1; 3]; [0x1p-1; 1]; [0; 0]] [1; 2; 7; infinity]) = false
   /\ (* parent taken among the WORST points *)
   check_bcase (BB true 2 6 [0; 0] [1; 3] [0x1p-2; 0x1p-1] [[0; 0x1p-2; 0x1p-1; 0x1.8p-1; 1]; [0; 0x1p-1; 1; 0x1.8p+0; 2; 0x1.4p+1; 3]]
                  [[0x1p-1; 1]; [1; 3]; [0; 0]; [0x1p-2; 2]] [7; 2; infinity; 1] [2; 0; 1; 3]%nat
                  [(1%nat, [(0%nat, 2%nat, true)]); (0%nat, [(1%nat, 5%nat, false)])]
-                 false [[1; 1]; [0; 0]] [[1; 1]; [0; 0]]) = false
+                 false [[1; 1]; [0; 0]] [[1; 1]; [0; 0]] [[0x1p-1; 1]; [1; 3]; [0; 0]; [0x1p-2; 2]] [7; 2; infinity; 1]) = false
   /\ (* a shock of perturbation_range steps *)
   check_bcase (BB true 2 6 [0; 0] [1; 3] [0x1p-2; 0x1p-1] [[0; 0x1p-2; 0x1p-1; 0x1.8p-1; 1]; [0; 0x1p-1; 1; 0x1.8p+0; 2; 0x1.4p+1; 3]]
                  [[0x1p-1; 1]; [1; 3]; [0; 0]; [0x1p-2; 2]] [7; 2; infinity; 1] [3; 1; 0; 2]%nat
                  [(1%nat, [(1%nat, 6%nat, false)]); (0%nat, [(1%nat, 5%nat, false)])]
-                 false [[1; 0]; [0x1p-2; 0]] [[1; 0]; [0x1p-2; 0]]) = false
+                 false [[1; 0]; [0x1p-2; 0]] [[1; 0]; [0x1p-2; 0]] [[0x1p-1; 1]; [1; 3]; [0; 0]; [0x1p-2; 2]] [7; 2; infinity; 1]) = false
   /\ (* too short a history must raise *)
-  check_bcase (BB true 3 6 [0; 0] [1; 3] [0x1p-2; 0x1p-1] [[0; 1]; [0; 3]] [[0; 0]; [1; 3]] [1; 2] [] [] true [] []) = true
-  /\ check_bcase (BB true 3 6 [0; 0] [1; 3] [0x1p-2; 0x1p-1] [[0; 1]; [0; 3]] [[0; 0]; [1; 3]] [1; 2] [] [] false [] []) = false.
+  check_bcase (BB true 3 6 [0; 0] [1; 3] [0x1p-2; 0x1p-1] [[0; 1]; [0; 3]] [[0; 0]; [1; 3]] [1; 2] [] [] true [] [] [[0; 0]; [1; 3]] [1; 2]) = true
+  /\ check_bcase (BB true 3 6 [0; 0] [1; 3] [0x1p-2; 0x1p-1] [[0; 1]; [0; 3]] [[0; 0]; [1; 3]] [1; 2] [] [] false [] [] [[0; 0]; [1; 3]] [1; 2]) = false.
 Proof. vm_compute. repeat split; reflexivity. Qed.
